@@ -82,14 +82,19 @@ def run(A, R: Report, thorough: bool):
     R.check(dci is not None and dci.is_subclass_of(A.cls('InMemoryData')), 'R19.2', 'MockTask.Meta.data_class', key_of('mock-data-class', dc), f'{dc} (in memory)', f'mock tasks use data class {dc}: mocked values would be persisted', where=where(mock.methods['__init__']))
     fval = mock.methods.get('value')
     finit = mock.methods.get('__init__')
-    R.require(fval is not None and finit is not None, 'anchor: MockTask.value / __init__ missing')
-    tv = A.sym.func_term(fval, ('inst', mock))
+    R.require(finit is not None, 'anchor: MockTask.__init__ missing')
+    if fval is None:
+        R.violation('R19.2', 'MockTask.value', key_of('mock-value-inherited'), 'MockTask no longer overrides `value`: the supplied value is served through Task.value / Task.data, so force() / reset_data() drop it and the next request tries to run the mock',
+                    where=where(finit))
+        R.ok('R19.2', 'MockTask.value: effects', 'not applicable', where=where(finit))
+    tv = A.sym.func_term(fval, ('inst', mock)) if fval is not None else ('opaque', 'no value')
     stored = [n for n in A.typer.own_nodes(finit) if isinstance(n, ast.Assign) and isinstance(n.targets[0], ast.Attribute) and src(n.value) == finit.params[1]]
     field = stored[0].targets[0].attr if stored else None
-    R.check(field is not None and tv == ('attr', ('self',), field) and fval.is_property, 'R19.2', 'MockTask.value', key_of('mock-value', str(tv)[:80]), f'returns self.{field} set from the constructor argument',
-            'a mocked task does not return exactly the supplied value', where=where(fval))
-    evs = [e for e in effects_of(A).collect(Ctx(fval, ('inst', mock))) if e.kind in FS_MUTATING or e.kind in ('RUN', 'USER')]
-    R.check(not evs, 'R19.2', 'MockTask.value: effects', key_of('mock-effects', [e.kind for e in evs]), 'no run / file-system effect', f'reading a mocked value has effects: {[e.describe()[:80] for e in evs]}', where=where(fval))
+    if fval is not None:
+        R.check(field is not None and tv == ('attr', ('self',), field) and fval.is_property, 'R19.2', 'MockTask.value', key_of('mock-value', str(tv)[:80]), f'returns self.{field} set from the constructor argument',
+                'a mocked task does not return exactly the supplied value', where=where(fval))
+        evs = [e for e in effects_of(A).collect(Ctx(fval, ('inst', mock))) if e.kind in FS_MUTATING or e.kind in ('RUN', 'USER')]
+        R.check(not evs, 'R19.2', 'MockTask.value: effects', key_of('mock-effects', [e.kind for e in evs]), 'no run / file-system effect', f'reading a mocked value has effects: {[e.describe()[:80] for e in evs]}', where=where(fval))
     fct = tc.methods.get('_create_tasks')
     R.require(fct is not None, 'anchor: TestChain._create_tasks missing')
     stop_old = A.sym.stop_at
@@ -195,6 +200,8 @@ def run(A, R: Report, thorough: bool):
     # ---- R19.5 / R19.6
     R.rule('R19.5', 'pattern inputs are matched against the registered task names (segment-wise namespace, fullmatch)', floor=1)
     check_expand_tasks(A, R, 'R19.5')
+    from .c08 import check_declaration_loop
+    check_declaration_loop(A, R, 'R19.5')
     R.rule('R19.6', 'run() arguments are bound by name from input tasks and declared parameters only', floor=1)
     check_run_argument_binding(A, R, 'R19.6')
 
